@@ -124,6 +124,21 @@ func (x *Exec) genNode(st *State, t types.Type, term, path string, depth int) *M
 	return n
 }
 
+// observable: every component of the value is dumped by the replay test (no maps,
+// interfaces, function values or opaque components).
+func observable(n *MNode) bool {
+	switch n.Kind {
+	case "map", "iface", "func", "opaque":
+		return false
+	}
+	for _, k := range n.Kids {
+		if !observable(k) {
+			return false
+		}
+	}
+	return true
+}
+
 func (n *MNode) flatten(out *[]string, nodes *[]func(string)) {
 	if n.Term != "" {
 		*out = append(*out, n.Term)
@@ -880,7 +895,20 @@ func tryReplay(prog *Program, repo, verif, dir string, oc *oblOutcome) (string, 
 			os.WriteFile(file, []byte(q), 0o644)
 			st, _, _ := runSolver(solvers[0], 20, 0, file)
 			fmt.Fprintf(&rep, "pinned check (%d input/output values of the real run asserted; clause negated): %s\n", len(pins), st)
-			if st == "sat" {
+			// the pinned query only decides when the observation covers everything the clause can
+			// read: maps, interfaces and function values are not observed, so a model of the
+			// pinned query may differ from the real run exactly there
+			complete := true
+			for _, in := range rs.Inputs {
+				complete = complete && observable(in)
+			}
+			for _, o := range rs.Outputs {
+				complete = complete && observable(o)
+			}
+			if st == "sat" && !complete {
+				rep.WriteString("not conclusive: the inputs or outputs contain maps, interfaces or function values, which the replay does not observe\n")
+			}
+			if st == "sat" && complete {
 				reproduced = true
 				rep.WriteString("the real run is itself a refuting execution: the observed outputs violate the clause\n")
 			}
